@@ -64,6 +64,9 @@ func copyByContract(recv reflect.Type, tn, method string) bool {
 	return false
 }
 
+// identityKinds: values whose serialisation is what an identity hash / address is computed from (C07)
+var identityKinds = map[string]bool{"kac": true, "dest": true, "rid": true, "cert": true, "keycert": true}
+
 // c08Kinds: the structures C08 names (RouterAddress, RouterInfo and Mapping are not among them).
 var c08Kinds = map[string]bool{"cert": true, "keycert": true, "kac": true, "dest": true, "rid": true, "sig": true, "offsig": true,
 	"lease": true, "lease2": true, "ls": true, "els": true, "ls2": true, "meta": true}
@@ -318,7 +321,10 @@ func init() {
 			callAllMethods(s.v.Interface())
 		}
 		if !same() {
-			h1 := []string{"C01", "C02", "C07", "C18"}
+			h1 := []string{"C01", "C02", "C18"}
+			if identityKinds[kind] {
+				h1 = append(h1, "C07") // the hashed bytes are the identity's serialisation
+			}
 			if kind == "mapping" {
 				h1 = append(h1, "C11")
 			}
@@ -396,7 +402,11 @@ func init() {
 							}
 						} else {
 							if !okSer || !okIn {
-								for _, p := range append(c08, "C03") {
+								tags := c08
+								if !okIn { // consumed bytes ++ remainder are no longer the input
+									tags = append(append([]string{}, c08...), "C03")
+								}
+								for _, p := range tags {
 									add(p, "history:append-to-result:"+key, "%s returns a slice whose %d bytes of spare capacity lie inside the value's own storage or the caller's input: appending to it changes them (serialisation intact=%v, input intact=%v)", part.name, len(spare), okSer, okIn)
 								}
 							}
@@ -488,7 +498,11 @@ func init() {
 						fb, fok := fs()
 						ft, _ := histKeyTypes(fresh)
 						if !fok || !bytes.Equal(fb, ser0) || (haveTypes && ft != types0) {
-							for _, p := range []string{"C10", "C18", "C09", "C01"} {
+							leak := []string{"C18", "C01"}
+							if haveTypes && ft != types0 { // the other value now declares other key types / sizes
+								leak = append(leak, "C10", "C09")
+							}
+							for _, p := range leak {
 								add(p, "history:edit-leaks-into-other-values:"+kind, "after %s of one %s was edited, a value parsed afresh from the same bytes differs (key types %s, before %s)", h.name, a[0], ft, types0)
 							}
 						}
